@@ -469,3 +469,97 @@ Proof.
   rewrite (left_flag_local E (swapc G) Hwf' (swapf F) (swapf F') r c r' c' _ _ HFs HFs' Hags eq_refl).
   reflexivity.
 Qed.
+
+(* ------------------------------------------------------------------ cross-checking: one row, the
+   columns c + d for d in the disparity interval *)
+
+Section XRow.
+  Import Model.CrossCheck Proofs.CrossCheckP.
+  Variables (nc nc' : Z) (dL dR dL' dR' : Z -> option Q) (mk mk' : Z -> Z) (thr : Q) (dmin dmax c c' : Z).
+  Hypothesis Hc : 0 <= c < nc /\ 0 <= c + dmin /\ c + dmax < nc.
+  Hypothesis Hc' : 0 <= c' < nc' /\ 0 <= c' + dmin /\ c' + dmax < nc'.
+  Hypothesis Emk : mk c = mk' c'.
+  Hypothesis EdL : dL c = dL' c'.
+  Hypothesis EdR : forall d, dmin <= d <= dmax -> dR (c + d) = dR' (c' + d).
+  Hypothesis Hok : is_valid (mk c) = true -> exists q, dL c = Some q /\ dmin <= rint q <= dmax.
+
+  Lemma comp_local : comp nc dR dmin dmax c = comp nc' dR' dmin dmax c'.
+  Proof.
+    unfold comp. cbv zeta.
+    assert (Ef : filter (hit nc dR c) (disparity_range dmin dmax) = filter (hit nc' dR' c') (disparity_range dmin dmax));
+      [|rewrite Ef; reflexivity].
+    apply filter_ext_in. intros d Hd.
+    unfold disparity_range in Hd. apply In_zrange in Hd.
+    unfold hit. cbv zeta.
+    replace ((0 <=? d + c) && (d + c <? nc)) with true by lia.
+    replace ((0 <=? d + c') && (d + c' <? nc')) with true by lia.
+    replace (d + c) with (c + d) by lia. replace (d + c') with (c' + d) by lia.
+    rewrite EdR by lia. reflexivity.
+  Qed.
+
+  Lemma pixel_mask_local :
+    pixel_mask true true nc dL dR mk thr dmin dmax c = pixel_mask true true nc' dL' dR' mk' thr dmin dmax c'.
+  Proof.
+    unfold pixel_mask.
+    replace ((0 <=? c) && (c <? nc)) with true by lia. replace ((0 <=? c') && (c' <? nc')) with true by lia.
+    cbn [andb]. rewrite <- Emk. destruct (is_valid (mk c)) eqn:V; [|reflexivity].
+    destruct (Hok eq_refl) as (q & Eq & Hq).
+    unfold col_right_of. rewrite <- EdL, Eq.
+    unfold in_img. replace ((0 <=? c + rint q) && (c + rint q <? nc)) with true by lia.
+    replace ((0 <=? c' + rint q) && (c' + rint q <? nc')) with true by lia.
+    unfold dist. cbn [fst snd]. rewrite <- EdL, Eq, (EdR (rint q)) by lia. rewrite comp_local. reflexivity.
+  Qed.
+End XRow.
+
+Section XDS.
+  Import Model.CrossCheck Proofs.CrossCheckP.
+  (* the mask the step leaves at a pixel that is not on the window margin of the raster *)
+  Lemma xcheck_mask_interior : forall thr me other r c,
+    0 <= ds_offset me -> ds_offset me <= r -> r + ds_offset me < ds_nr me ->
+    ds_offset me <= c -> c + ds_offset me < ds_nc me ->
+    ds_mask (xcheck thr me other) r c
+    = pixel_mask true true (ds_nc me) (ds_disp me r) (ds_disp other r) (ds_mask me r) thr (ds_dmin me) (ds_dmax me) c.
+  Proof.
+    intros thr me other r c H0 H1 H2 H3 H4. unfold xcheck, xcheck_gen. cbn [ds_mask].
+    assert (Em : xcheck_mask true true thr me other r c
+                 = pixel_mask true true (ds_nc me) (ds_disp me r) (ds_disp other r) (ds_mask me r) thr (ds_dmin me) (ds_dmax me) c).
+    { unfold xcheck_mask. replace ((0 <=? r) && (r <? ds_nr me)) with true by lia. apply mask_row_pixel. }
+    destruct (0 <? ds_offset me) eqn:Eo; [|exact Em].
+    rewrite mask_border_spec by lia. unfold Spec.CrossCheck.is_border.
+    replace ((r <? ds_offset me) || (ds_nr me - ds_offset me <=? r) || (c <? ds_offset me) || (ds_nc me - ds_offset me <=? c))
+      with false by lia.
+    exact Em.
+  Qed.
+End XDS.
+
+Definition rad_xcheck_margin (G : cfg) : radii :=
+  let h := MatchingCost.offset (g_w G) in mkRad h (Z.max h (dspan G)) (Z.max h (dspan G)).
+
+Theorem xcheck_step_local : forall thr G, cfg_wf G ->
+  local (fun F r c => px_ok G (f_at F r c)) (xcheck_step thr G) (rad_xcheck G) (rad_xcheck_margin G).
+Proof.
+  intros thr G Hwf F F' r c r' c' HF HF' Hag [HokL HokR].
+  pose proof (h0 G Hwf) as Hh.
+  assert (Hsp : - dspan G <= g_dmin G /\ g_dmax G <= dspan G /\ 0 <= dspan G) by (unfold dspan, dpos, dneg; lia).
+  assert (WD : rad_wf (rad_xcheck G)) by (unfold rad_wf, rad_xcheck; cbn [rho lam mu]; lia).
+  pose proof (agree_centre _ F F' _ r c r' c' WD Hag) as E0.
+  unfold cone_in, rad_xcheck_margin in HF, HF'. cbn [rho lam mu] in HF, HF'.
+  assert (Hrow : forall d, - dspan G <= d <= dspan G -> f_at F r (c + d) = f_at F' r' (c' + d)).
+  { intros d Hd. pose proof (Hag 0 d) as X. rewrite !Z.add_0_r in X. apply X.
+    unfold in_cone, rad_xcheck. cbn [rho lam mu]. lia. }
+  unfold xcheck_step. cbv zeta.
+  rewrite !xcheck_mask_interior by (cbn [CrossCheck.ds_offset CrossCheck.ds_nr CrossCheck.ds_nc ds_left ds_right]; lia).
+  cbn [CrossCheck.ds_nc CrossCheck.ds_disp CrossCheck.ds_mask CrossCheck.ds_dmin CrossCheck.ds_dmax ds_left ds_right
+       CrossCheck.xcheck CrossCheck.xcheck_gen].
+  rewrite (pixel_mask_local (f_nc F) (f_nc F') (fld p_dL F r) (fld p_dR F r) (fld p_dL F' r') (fld p_dR F' r')
+             (fld p_fL F r) (fld p_fL F' r') thr (g_dmin G) (g_dmax G) c c').
+  2:{ lia. } 2:{ lia. } 2:{ unfold fld. now rewrite E0. } 2:{ unfold fld. now rewrite E0. }
+  2:{ intros d Hd. unfold fld. rewrite Hrow by lia. reflexivity. }
+  2:{ exact HokL. }
+  rewrite (pixel_mask_local (f_nc F) (f_nc F') (fld p_dR F r) (fld p_dL F r) (fld p_dR F' r') (fld p_dL F' r')
+             (fld p_fR F r) (fld p_fR F' r') thr (- g_dmax G) (- g_dmin G) c c').
+  2:{ lia. } 2:{ lia. } 2:{ unfold fld. now rewrite E0. } 2:{ unfold fld. now rewrite E0. }
+  2:{ intros d Hd. unfold fld. rewrite Hrow by lia. reflexivity. }
+  2:{ exact HokR. }
+  rewrite E0. reflexivity.
+Qed.
